@@ -484,6 +484,7 @@ func (d depLang) build() (valid *rx, malformed map[string]*rx) {
 		"clause-after-substvar":  rCat(subst, Ws, rAlt(ver, archs, prof), rStar(any)),
 		"double-negated-profile": rCat(NAME, Wp, d.lit("<"), Ws, d.lit("!!"), rStar(any)),
 		"substvar-without-brace": rCat(d.lit("$"), d.anyExcept("{"), rStar(any)),
+		"two-numbers-in-version": rCat(NAME, Ws, d.lit("("), Ws, op, Ws, rPlus(VCHAR), Wp, VCHAR, rStar(any)),
 	}
 	return field, mal
 }
@@ -508,11 +509,11 @@ func (d depLang) badOp() *rx {
 
 func checkC04(p *Prog, rp *Report) {
 	defer stateRule(p, rp, "C04-STATE", p.Func("dependency", "Parse"), p.Method("dependency", "Dependency", "UnmarshalControl"), p.Func("dependency", "ParseArch"))
-	rp.Explanation = "dependency.Parse is interpreted abstractly on a lazily revealed input string of unbounded length (bytes abstracted to the classes induced by every constant the parser compares with; names kept as empty/non-empty; slices as empty/non-empty; the cursor relative): the reachable states form a finite transition system. C04-LANG: on that automaton, every field of a conservative Policy 7.1 grammar is accepted on all runs (inclusion), and thirteen malformed classes (unterminated '[', '(', '${', '<'; mixed negation; second version / architecture clause; unknown operator; two names without separator; name or clause after a substvar; '!!'; '$' not followed by '{') intersect the accepted language in nothing; failures come with a shortest witness string. C04-TOKENS: no blank byte (space, tab, CR, LF) is ever appended to a name, qualifier, version number, architecture or profile name; no architecture with an empty name, no empty profile, profile group or relation is stored. C04-TOKENS also holds two concrete obligations: a field with bytes >= 0x80 (0x85 and 0xA0 among them, which are white space as code points but not as bytes) inside every token kind parses to exactly those tokens; decoding into a Dependency that already holds a value replaces it and leaves copies of the earlier value alone. C04-OPS: the operators that can be stored are exactly = << <= >= >>, the set SatisfiedBy decides. C04-ERR: every error in the parser's call tree is returned; Parse returns no value with an error. C04-TOTAL: no panic and no loop that stops consuming input is reachable."
+	rp.Explanation = "dependency.Parse is interpreted abstractly on a lazily revealed input string of unbounded length (bytes abstracted to the classes induced by every constant the parser compares with; names kept as empty/non-empty; slices as empty/non-empty; the cursor relative): the reachable states form a finite transition system. C04-LANG: on that automaton, every field of a conservative Policy 7.1 grammar is accepted on all runs (inclusion), and fourteen malformed classes (unterminated '[', '(', '${', '<'; mixed negation; second version / architecture clause; unknown operator; two names without separator; name or clause after a substvar; '!!'; '$' not followed by '{'; two numbers in one version clause) intersect the accepted language in nothing; failures come with a shortest witness string. C04-TOKENS: no blank byte (space, tab, CR, LF) is ever appended to a name, qualifier, version number, architecture or profile name; no architecture with an empty name, no empty profile, profile group or relation is stored. C04-TOKENS also holds two concrete obligations: a field with bytes >= 0x80 (0x85 and 0xA0 among them, which are white space as code points but not as bytes) inside every token kind parses to exactly those tokens; decoding into a Dependency that already holds a value replaces it and leaves copies of the earlier value alone. C04-OPS: the operators that can be stored are exactly = << <= >= >>, the set SatisfiedBy decides. C04-ERR: every error in the parser's call tree is returned; Parse returns no value with an error. C04-TOTAL: no panic and no loop that stops consuming input is reachable."
 	rp.NotDecided = "that every accepted valid field yields exactly the denoted AST (the effect abstraction tracks which token a byte goes to only through the TOKENS events, not the full tree); bytes >= 0x80 and NUL are in the alphabet but not in the grammar."
 	rp.Trusted = []string{"go/types, go/ssa", "soundness of the lazy-tape abstraction (tape bytes only compared with constants; cursor only moves forward: checked per run)", "the Policy 7.1 languages built in c04.go"}
 	pm, why := buildParserModel(p)
-	lang := rp.Rule("C04-LANG", "accepted language contains the Policy grammar and excludes the malformed classes", 14)
+	lang := rp.Rule("C04-LANG", "accepted language contains the Policy grammar and excludes the malformed classes", 15)
 	parse := p.Func("dependency", "Parse")
 	if parse == nil {
 		lang.undecided("dependency.Parse", "", "function not found")
